@@ -8,6 +8,8 @@ import math
 import random
 import sys
 
+import numpy as np
+
 from ..dworld import DWorld, make_filter, BUILDERS, graph_builder, FEATURE_TYPES
 from ..instances import gen_instance, n_ops, build, as_tuple, is_flexible
 from ..model import Model, check_feasible, sequences_schedule
@@ -43,7 +45,7 @@ ACTORS = ["views", "dispatch_history", "rule_solve", "graph", "env_episode", "cp
 def generate(seed, tier):
     rng = stream(seed, "c14")
     if rng.random() < 0.45:
-        spec = gen_instance(rng, sparse_ids=0.03, large=0.008, max_jobs=4, max_machines=4, max_ops=4, flexible=False)
+        spec = gen_instance(rng, huge=0.05, sparse_ids=0.03, large=0.008, max_jobs=4, max_machines=4, max_ops=4, flexible=False)
         n = n_ops(spec)
         hist = [["dispatch", rng.randrange(64), 0, 0] for _ in range(n)]
         ops = []
@@ -58,7 +60,7 @@ def generate(seed, tier):
             else:
                 ops.append(["shuffle", rng.randrange(8), rng.randrange(1 << 30)])
         return {"prop": PROP, "kind": "sequences", "cfg": {"instance": spec, "history": hist}, "ops": ops}
-    spec = gen_instance(rng, sparse_ids=0.03, large=0.008, max_jobs=4, max_machines=4, max_ops=4)
+    spec = gen_instance(rng, huge=0.05, sparse_ids=0.03, large=0.008, max_jobs=4, max_machines=4, max_ops=4)
     spec["name"] = rng.choice(["sim", "la01", "my instance", "a.b"])
     spec["metadata"] = rng.choice([{}, {"optimum": 7}, {"lower_bound": 1, "tags": ["x", "y"]}])
     ops = []
@@ -108,7 +110,8 @@ def check_views(ctx, inst, jobs, when):
         "total_duration": sum(d for job in jobs for _, d in job),
     }
     L = max(len(j) for j in jobs)
-    exp["durations_matrix_array"] = [[float(job[p][1]) if p < len(job) else "nan" for p in range(L)] for job in jobs]
+    # the padded arrays are documented as float32 arrays: a duration is held as the nearest float32
+    exp["durations_matrix_array"] = [[float(np.float32(job[p][1])) if p < len(job) else "nan" for p in range(L)] for job in jobs]
     if flex:
         K = max(len(ms) for job in jobs for ms, _ in job)
         exp["machines_matrix_array"] = [[[float(job[p][0][k]) if p < len(job) and k < len(job[p][0]) else "nan" for k in range(K)] for p in range(L)] for job in jobs]
@@ -335,6 +338,18 @@ def roundtrip_instance(ctx, inst, jobs, rng, i, flex, jim):
     check_views(ctx, i2, jobs, f"op {i}: instance rebuilt from its dictionary")
     ctx.check((i2 == inst) is True, "instance_dict_roundtrip", lambda: f"op {i}: from_matrices(to_dict(I)) == I is {i2 == inst} although the operations are the same", via="eq")
     ctx.probe("instance_roundtrip")
+    if rng.random() < 0.2:
+        # the user renames the instance and revises its metadata between two serialisations
+        old_name, old_md = inst.name, inst.metadata
+        inst.name, inst.metadata = old_name + "_v2", {**old_md, "revised": True}
+        d2 = inst.to_dict()
+        ctx.check(d2.get("name") == old_name + "_v2" and d2.get("metadata") == {**old_md, "revised": True}, "instance_dict_roundtrip",
+                  lambda: f"op {i}: after renaming the instance to {inst.name!r} to_dict() still says name={d2.get('name')!r} metadata={d2.get('metadata')}", via="renamed")
+        inst.name, inst.metadata = old_name, old_md
+        d3 = inst.to_dict()
+        ctx.check(d3.get("name") == old_name and d3.get("metadata") == old_md, "instance_dict_roundtrip",
+                  lambda: f"op {i}: after naming the instance {old_name!r} again to_dict() says name={d3.get('name')!r}", via="renamed")
+        ctx.probe("renamed_between_serialisations")
     if not flex:
         sym = rng.choice(["#", "#", "#", "%", "//", ";;"])  # the file's comment symbol is the caller's to name
         text = taillard_text(jobs, rng, sym)
